@@ -1077,6 +1077,8 @@ func TestC19(t *testing.T) {
 	}
 	// the schedule of the former finding F19 is always generated (real time, own header type)
 	parkWitness(t, reg, w)
+	// a Head() call racing with the end of a sync round (the two reads of localHead)
+	raceWitness(t, reg, w)
 	if err := w.Flush(); err != nil {
 		t.Fatal(err)
 	}
